@@ -13,7 +13,6 @@ CHECKS = {
     note='Trusts the plain run of the same binary as reference (a defect that changes code identically under all configurations is invisible here; '
          'C16 compares against recorded .ori images). Time-stamp masking by regular expression.'),
 }
-
 NOT_YET = {}
 
 def main():
